@@ -28,7 +28,7 @@ CODEC_REQUIRES = ["FlacCodec.Wf", "FlacCodec.Spec", "FlacCodec.Stream", "FlacCod
 BASE_THEOREMS = ["crc16_valid_single_bit_detected", "crc8_valid_single_bit_detected"]
 # property -> theorems of coq/codec/Props_codec.v claimed for it (grows as proofs land)
 THEOREMS = {
-    "C01": ["C01_encoder_frame_lossless", "C01_encoder_stream_lossless", "C01_encoder_never_fails", "ex_encoder_roundtrip", "ex_block_ok", "C01_every_block_has_an_admissible_frame", "C03_complete_stream", "C01_decoders_agree", "C03_decoder_follows_format", "C17_parse_inverts_write", "ex_frame_roundtrip"],
+    "C01": ["C01_encoder_file_lossless", "ex_encoder_file", "C01_encoder_frame_lossless", "C01_encoder_stream_lossless", "C01_encoder_never_fails", "ex_encoder_roundtrip", "ex_block_ok", "C01_every_block_has_an_admissible_frame", "C03_complete_stream", "C01_decoders_agree", "C03_decoder_follows_format", "C17_parse_inverts_write", "ex_frame_roundtrip"],
     "C02": ["C02_encoder_frame_valid", "C01_encoder_frame_lossless", "C02_reference_decoder_accepts", "C17_parse_inverts_write", "crc16_append", "crc8_append"],
     "C03": ["C03_decoder_follows_format", "C03_complete_stream", "C17_parse_inverts_write", "ex_frame_spec"],
     "C04": ["C04_frame_total", "C04_stream_total", "C04_frame_progress", "C04_decoded_frame_size", "C16_no_fabricated_frame"],
